@@ -20,7 +20,7 @@ import (
 	"github.com/gr33nbl00d/caddy-revocation-validator/config"
 )
 
-func mustJSON(v interface{}) []byte {
+func c19MustJSON(v interface{}) []byte {
 	b, err := json.Marshal(v)
 	must(err)
 	return b
@@ -107,10 +107,10 @@ type c19Load struct {
 	Class  string // ok | error | panic
 	Obs    string
 	Err    string
-	Eff    effCfg
+	Eff    c19EffCfg
 }
 
-func sigName(m config.SignatureValidationMode) string {
+func c19SigName(m config.SignatureValidationMode) string {
 	switch m {
 	case config.SignatureValidationModeNone:
 		return "none"
@@ -122,7 +122,7 @@ func sigName(m config.SignatureValidationMode) string {
 	return fmt.Sprintf("sig#%d", int(m))
 }
 
-func storageName(s config.StorageType) string {
+func c19StorageName(s config.StorageType) string {
 	switch s {
 	case config.Memory:
 		return "memory"
@@ -132,7 +132,7 @@ func storageName(s config.StorageType) string {
 	return fmt.Sprintf("storage#%d", int(s))
 }
 
-func fetchName(f config.CRLFetchMode) string {
+func c19FetchName(f config.CRLFetchMode) string {
 	switch f {
 	case config.CRLFetchModeActively:
 		return "fetch_actively"
@@ -142,17 +142,17 @@ func fetchName(f config.CRLFetchMode) string {
 	return fmt.Sprintf("fetch#%d", int(f))
 }
 
-func c19Dump(v *revocation.CertRevocationValidator) effCfg {
-	e := effCfg{Mode: modeName(v.ModeParsed)}
+func c19Dump(v *revocation.CertRevocationValidator) c19EffCfg {
+	e := c19EffCfg{Mode: modeName(v.ModeParsed)}
 	if c := v.CRLConfig; c != nil {
-		e.CRL = &effCRL{WorkDir: c.WorkDir, Storage: storageName(c.StorageTypeParsed), Sig: sigName(c.SignatureValidationModeParsed),
+		e.CRL = &c19EffCRL{WorkDir: c.WorkDir, Storage: c19StorageName(c.StorageTypeParsed), Sig: c19SigName(c.SignatureValidationModeParsed),
 			IntervalNs: int64(c.UpdateIntervalParsed), Urls: c.CRLUrls, Files: c.CRLFiles, Signers: c.TrustedSignatureCertsFiles}
 		if c.CDPConfig != nil {
-			e.CRL.CDP = &effCDP{Fetch: fetchName(c.CDPConfig.CRLFetchModeParsed), Strict: c.CDPConfig.CRLCDPStrict}
+			e.CRL.CDP = &c19EffCDP{Fetch: c19FetchName(c.CDPConfig.CRLFetchModeParsed), Strict: c.CDPConfig.CRLCDPStrict}
 		}
 	}
 	if o := v.OCSPConfig; o != nil {
-		e.OCSP = &effOCSP{CacheNs: int64(o.DefaultCacheDurationParsed), Responders: o.TrustedResponderCertsFiles, Strict: o.OCSPAIAStrict}
+		e.OCSP = &c19EffOCSP{CacheNs: int64(o.DefaultCacheDurationParsed), Responders: o.TrustedResponderCertsFiles, Strict: o.OCSPAIAStrict}
 	}
 	return e
 }
@@ -201,16 +201,16 @@ func (fx *c19Fixture) envWords(e *c19Env, durStrings []string, crls []string) st
 	for _, f := range append(append([]string{}, fx.CertFiles...), fx.CACertFile, fx.CA2CertFile) {
 		certs = append(certs, f)
 	}
-	return fmt.Sprintf("D=%s F=%s U=[%s] C=%s L=%s", hexList([]string{e.WorkDir}), hexList([]string{e.AFile}), strings.Join(durs, ","),
-		hexList(certs), hexList(crls))
+	return fmt.Sprintf("D=%s F=%s U=[%s] C=%s L=%s", c19HexList([]string{e.WorkDir}), c19HexList([]string{e.AFile}), strings.Join(durs, ","),
+		c19HexList(certs), c19HexList(crls))
 }
 
-func allArgs(ts []c19Tok, out *[]string) {
+func c19AllArgs(ts []c19Tok, out *[]string) {
 	for _, t := range ts {
 		*out = append(*out, t.Key)
 		*out = append(*out, t.Args...)
 		if t.Block != nil {
-			allArgs(*t.Block, out)
+			c19AllArgs(*t.Block, out)
 		}
 	}
 }
@@ -218,10 +218,10 @@ func allArgs(ts []c19Tok, out *[]string) {
 func (fx *c19Fixture) loadCaddyfile(e *c19Env, ts []c19Tok, text string) *c19Load {
 	l := &c19Load{Syntax: "caddyfile"}
 	var strs []string
-	allArgs(ts, &strs)
+	c19AllArgs(ts, &strs)
 	var b strings.Builder
 	b.WriteString("conf caddyfile " + fx.envWords(e, strs, fx.okCRLsToks(ts)))
-	encToks(ts, &b)
+	c19EncToks(ts, &b)
 	l.Op = b.String()
 	v := &revocation.CertRevocationValidator{}
 	var err error
@@ -241,7 +241,7 @@ func (fx *c19Fixture) loadCaddyfile(e *c19Env, ts []c19Tok, text string) *c19Loa
 	return l
 }
 
-func bit(b bool) string {
+func c19Bit(b bool) string {
 	if b {
 		return "1"
 	}
@@ -277,8 +277,8 @@ func (fx *c19Fixture) loadJSON(e *c19Env, text string) *c19Load {
 	}
 	h := func(s string) string { return hexs([]byte(s)) }
 	l.Op = fmt.Sprintf("conf json %s m=%s crl=%s wd=%s st=%s iv=%s sg=%s urls=%s files=%s sgn=%s cdp=%s fm=%s cs=%s ocsp=%s cd=%s rs=%s as=%s",
-		fx.envWords(e, durs, fx.okCRLs(sigMode, signers)), h(v.Mode), bit(v.CRLConfig != nil), h(wd), h(st), h(iv), h(sg), hexList(urls), hexList(files), hexList(sgn),
-		bit(v.CRLConfig != nil && v.CRLConfig.CDPConfig != nil), h(fm), bit(cs), bit(v.OCSPConfig != nil), h(cd), hexList(rs), bit(as))
+		fx.envWords(e, durs, fx.okCRLs(sigMode, signers)), h(v.Mode), c19Bit(v.CRLConfig != nil), h(wd), h(st), h(iv), h(sg), c19HexList(urls), c19HexList(files), c19HexList(sgn),
+		c19Bit(v.CRLConfig != nil && v.CRLConfig.CDPConfig != nil), h(fm), c19Bit(cs), c19Bit(v.OCSPConfig != nil), h(cd), c19HexList(rs), c19Bit(as))
 	c19Provision(v, l)
 	return l
 }
@@ -293,7 +293,7 @@ func (fx *c19Fixture) crlOK(loc, sigMode string, signers []string) bool {
 	if sigMode == "none" || sigMode == "verify_log" {
 		return true
 	}
-	return inList(signer, signers)
+	return c19InList(signer, signers)
 }
 
 func (fx *c19Fixture) okCRLs(sigMode string, signers []string) []string {
@@ -326,14 +326,14 @@ func (fx *c19Fixture) okCRLsToks(ts []c19Tok) []string {
 }
 
 // documented: the README's meaning of the settings. Returns the expected effective configuration, or
-// invalid != "" when the statement requires rejection, or lenient when it leaves the outcome open
-// (non-positive update interval: may be rejected or accepted, must not crash).
-func (fx *c19Fixture) documented(c *aCfg, e *c19Env) (want effCfg, invalid string, lenient bool) {
+// invalid != "" when the statement requires rejection (an update interval that is not positive is an
+// invalid value: an updater cannot tick every zero or minus five minutes).
+func (fx *c19Fixture) documented(c *c19ACfg, e *c19Env) (want c19EffCfg, invalid string) {
 	enum := func(opt string, v *string, valid []string, dflt string) string {
 		if v == nil || *v == "" {
 			return dflt
 		}
-		if !inList(*v, valid) {
+		if !c19InList(*v, valid) {
 			if invalid == "" {
 				invalid = "option=" + opt
 			}
@@ -364,15 +364,18 @@ func (fx *c19Fixture) documented(c *aCfg, e *c19Env) (want effCfg, invalid strin
 	want.Mode = enum("mode", c.Mode, c19Modes, "prefer_ocsp")
 	if c.Crl != nil {
 		k := c.Crl
-		w := &effCRL{Urls: k.Urls, Files: k.Files, Signers: k.Signers}
+		w := &c19EffCRL{Urls: k.Urls, Files: k.Files, Signers: k.Signers}
 		if k.WorkDir != nil {
 			w.WorkDir = *k.WorkDir
 		}
 		w.Storage = enum("storage_type", k.Storage, c19Storages, "disk")
 		w.IntervalNs = dur("update_interval", k.Interval, 30*time.Minute)
+		if w.IntervalNs <= 0 && invalid == "" {
+			invalid = "option=update_interval (not positive)"
+		}
 		w.Sig = enum("signature_validation_mode", k.Sig, c19Sigs, "verify")
 		certs("trusted_signature_certs_files", k.Signers)
-		w.CDP = &effCDP{Fetch: "fetch_actively"}
+		w.CDP = &c19EffCDP{Fetch: "fetch_actively"}
 		if k.Cdp != nil {
 			w.CDP.Fetch = enum("crl_fetch_mode", k.Cdp.Fetch, c19Fetches, "fetch_actively")
 			if k.Cdp.Strict != nil {
@@ -381,7 +384,7 @@ func (fx *c19Fixture) documented(c *aCfg, e *c19Env) (want effCfg, invalid strin
 		}
 		want.CRL = w
 	}
-	want.OCSP = &effOCSP{}
+	want.OCSP = &c19EffOCSP{}
 	if c.Ocsp != nil {
 		want.OCSP.CacheNs = dur("default_cache_duration", c.Ocsp.Cache, 0)
 		certs("trusted_responder_certs_files", c.Ocsp.Responders)
@@ -390,7 +393,7 @@ func (fx *c19Fixture) documented(c *aCfg, e *c19Env) (want effCfg, invalid strin
 			want.OCSP.Strict = *c.Ocsp.Strict
 		}
 	}
-	if invalid == "" && crlEnabledMode(want.Mode) {
+	if invalid == "" && c19CrlEnabledMode(want.Mode) {
 		switch {
 		case want.CRL == nil || want.CRL.WorkDir != e.WorkDir:
 			invalid = "option=work_dir (CRL checking needs an existing directory)"
@@ -401,9 +404,6 @@ func (fx *c19Fixture) documented(c *aCfg, e *c19Env) (want effCfg, invalid strin
 				}
 			}
 		}
-		if invalid == "" && want.CRL.IntervalNs <= 0 {
-			lenient = true
-		}
 	}
-	return want, invalid, lenient
+	return want, invalid
 }
